@@ -7,6 +7,9 @@ import (
 	"math"
 	"math/big"
 
+	"github.com/ccbrown/api-fu/graphql"
+	"github.com/ccbrown/api-fu/graphql/ast"
+
 	"verifharness/internal/rng"
 	"verifharness/internal/sexp"
 )
@@ -207,6 +210,8 @@ type wGen struct {
 	r     *rng.R
 	pFail int // per-node failure probability in 1/100
 	frags map[string]fragInfo
+	real  *graphql.Schema
+	vv    map[string]interface{}
 }
 
 var interestingInts = []int64{0, 1, -1, 7, 127, -128, 255, 32767, 65535, 2147483647, -2147483648, 2147483648, -2147483649,
@@ -313,25 +318,31 @@ type selInfo struct {
 	kind string // field spread inline
 	name string // field name / fragment name
 	sub  []selInfo
+	node *ast.Field
 }
 
 // fieldsIn: every field (name -> sub-selections) reachable in sels through any fragment,
 // regardless of type conditions and directives (an over-approximation of what may be executed).
-func (g *wGen) fieldsIn(sels []selInfo, seen map[string]bool, acc map[string][]selInfo, order *[]string) {
+func (g *wGen) fieldsIn(ot string, sels []selInfo, seen map[string]bool, acc map[string][]selInfo, order *[]string, fname map[string]string) {
 	for _, s := range sels {
 		switch s.kind {
 		case "field":
-			if _, ok := acc[s.name]; !ok {
-				*order = append(*order, s.name)
-				acc[s.name] = nil
+			key, ok := g.keyOf(ot, s)
+			if !ok {
+				continue // the arguments do not coerce: the resolver is not called
 			}
-			acc[s.name] = append(acc[s.name], s.sub...)
+			if _, ok := acc[key]; !ok {
+				*order = append(*order, key)
+				acc[key] = nil
+				fname[key] = s.name
+			}
+			acc[key] = append(acc[key], s.sub...)
 		case "inline":
-			g.fieldsIn(s.sub, seen, acc, order)
+			g.fieldsIn(ot, s.sub, seen, acc, order, fname)
 		case "spread":
 			if !seen[s.name] {
 				seen[s.name] = true
-				g.fieldsIn(g.frags[s.name].sels, seen, acc, order)
+				g.fieldsIn(ot, g.frags[s.name].sels, seen, acc, order, fname)
 			}
 		}
 	}
@@ -344,16 +355,28 @@ func (g *wGen) object(ot string, sels []selInfo, depth int) *outcome {
 	t := g.s.byName[ot]
 	o := &outcome{kind: "obj", tag: ot, fields: map[string]*outcome{}}
 	acc := map[string][]selInfo{}
+	fname := map[string]string{}
 	var order []string
-	g.fieldsIn(sels, map[string]bool{}, acc, &order)
+	g.fieldsIn(ot, sels, map[string]bool{}, acc, &order, fname)
 	for _, n := range order {
-		f := t.field(n)
+		f := t.field(fname[n])
 		if f == nil {
 			continue
 		}
 		c := g.forType(f.ty, acc[n], depth, true)
-		o.names = append(o.names, n)
+		if _, ok := o.fields[n]; !ok {
+			o.names = append(o.names, n)
+		}
 		o.fields[n] = c
+		if n != fname[n] {
+			// decoys: what a resolver called with no / slightly different arguments would answer
+			for _, k := range []string{fname[n], fname[n] + "\x00" + perturbed(n[len(fname[n])+1:])} {
+				if _, ok := o.fields[k]; !ok && g.r.Chance(1, 2) {
+					o.names = append(o.names, k)
+					o.fields[k] = g.forType(f.ty, acc[n], depth-1, true)
+				}
+			}
+		}
 	}
 	// sometimes one selected field has no outcome at all (the resolver then fails)
 	if len(o.names) > 1 && g.r.Intn(100) < g.pFail/2 {
